@@ -282,6 +282,9 @@ class BaseProperty(base.BaseObject):
             self._parent.remove(self)
             self._parent = None
         elif self._validate_parent(new_parent):
+            if new_parent is not self._parent and self.name in new_parent.properties:
+                # Refuse before the object is removed from its current parent.
+                raise KeyError("Object with the same name already exists! " + str(self))
             if self._parent is not None:
                 self._parent.remove(self)
             self._parent = new_parent
